@@ -70,6 +70,8 @@ func (scp *Isolated) Kill() {
 
 // Stop stop the scope context without error
 func (scp *Isolated) Stop() {
+	scp.errorsMU.Lock()
+	defer scp.errorsMU.Unlock()
 	if !scp.IsDone() {
 		verifhook.Yield("isolated.stop.gap")
 		close(scp.done)
